@@ -17,7 +17,13 @@
      `@list`), relative IRI references — is filled with the first candidate, in an order rotated by the
      choices, that the fragment semantics maps back to the intended term: the writer evaluates
      `JL.evalMembers` / `JL.evalItem` / `JL.evalId` on the candidate member (translation validation).
-     If no candidate of some place validates, `render` gives up.
+     If no candidate of some place validates, `render` gives up. The choices may also supply a *local
+     context* that is put on about every second embedded node object and graph member (not on the top
+     level of a single-node document): the active context is extended there (`processLocal` on the
+     inherited context) and everything below is rendered under the extended context — inherited terms,
+     `@vocab`, `@base` and the default `@language` must survive, overridden ones must change.
+     `renderWith` tries: document context + local contexts, document context only, local contexts only,
+     neither.
   3. `write` falls back to `writeFlat` — an array with one expanded node object per quad and no
      context — when step 1 or 2 gave up.
 
@@ -354,6 +360,7 @@ structure Choices where
   mode11 : Bool
   base : Option Str      -- the document base handed to `toRdf`
   context : Option Json  -- inline context to try
+  localContext : Option Json -- a further context to put on some embedded node objects and graph members
   nest : Bool            -- embed once-referenced blank nodes
   lists : Bool           -- write RDF lists as list values
   anonTop : Bool         -- unreferenced blank node subjects lose their identifier
@@ -435,8 +442,19 @@ def compactGroup (name : β → Str) (c : Ctx) (ch : Choices) (g : Option T) (s 
 
 mutual
 /-- a node object: members and the counter after it -/
-def renderNode (name : β → Str) (c : Ctx) (ch : Choices) (g : Option T) : Tree β → Nat → Rendered
+def renderNode (name : β → Str) (c0 : Ctx) (ch : Choices) (loc : Option Json) (g : Option T) : Tree β → Nat → Rendered
   | .node id groups, n =>
+    -- a local context on this node object (about every second one): the active context is extended for
+    -- the node and everything embedded in it
+    let lc : Option (Json × Ctx) :=
+      if (ch.seed + n + groups.length) % 2 = 0 then loc.bind fun cj => (processLocal c0 cj).map fun c' => (cj, c')
+      else none
+    let c : Ctx := match lc with
+      | some (_, c') => c'
+      | none => c0
+    let ctxM : List (Str × Json) := match lc with
+      | some (cj, _) => [(kContext, cj)]
+      | none => []
     let i := denId name id n
     let idM : Option (List (Str × Json)) :=
       match id with
@@ -449,12 +467,12 @@ def renderNode (name : β → Str) (c : Ctx) (ch : Choices) (g : Option T) : Tre
     match idM with
     | none => none
     | some idM =>
-      match renderGroups name c ch g i.1 groups i.2 with
+      match renderGroups name c ch loc g i.1 groups i.2 with
       | none => none
-      | some (ms, n') => some (idM ++ ms, n')
+      | some (ms, n') => some (ctxM ++ idM ++ ms, n')
   | _, _ => none
 
-def renderGroups (name : β → Str) (c : Ctx) (ch : Choices) (g : Option T) (s : T) :
+def renderGroups (name : β → Str) (c : Ctx) (ch : Choices) (loc : Option Json) (g : Option T) (s : T) :
     List (Str × List (Tree β)) → Nat → Rendered
   | [], n => some ([], n)
   | (p, vs) :: rest, n =>
@@ -467,25 +485,25 @@ def renderGroups (name : β → Str) (c : Ctx) (ch : Choices) (g : Option T) (s 
         match (keyForms c (ch.seed + salt p) p).find? (fun e => e.2.cont = .none || e.2.cont = .set) with
         | none => none
         | some (k, td) =>
-          match renderVals name c ch td g s p vs n with
+          match renderVals name c ch loc td g s p vs n with
           | none => none
           | some (js, _) => some (k, .arr js)
     match here with
     | none => none
     | some (k, v) =>
-      match renderGroups name c ch g s rest want.2 with
+      match renderGroups name c ch loc g s rest want.2 with
       | none => none
       | some (ms, n') => some ((k, v) :: ms, n')
 
 /-- the values of one property, one JSON value each -/
-def renderVals (name : β → Str) (c : Ctx) (ch : Choices) (td : TermDef) (g : Option T) (s : T) (p : Str) :
+def renderVals (name : β → Str) (c : Ctx) (ch : Choices) (loc : Option Json) (td : TermDef) (g : Option T) (s : T) (p : Str) :
     List (Tree β) → Nat → Option (List Json × Nat)
   | [], n => some ([], n)
   | v :: vs, n =>
     let here : Option (Json × Nat) :=
       match v with
       | .node id groups =>
-        match renderNode name c ch g (.node id groups) n with
+        match renderNode name c ch loc g (.node id groups) n with
         | none => none
         | some (ms, n') => some (.obj ms, n')
       | .term t =>
@@ -500,31 +518,31 @@ def renderVals (name : β → Str) (c : Ctx) (ch : Choices) (td : TermDef) (g : 
     match here with
     | none => none
     | some (j, n1) =>
-      match renderVals name c ch td g s p vs n1 with
+      match renderVals name c ch loc td g s p vs n1 with
       | none => none
       | some (js, n2) => some (j :: js, n2)
 end
 
 /-- the node objects of one graph -/
-def renderNodes (name : β → Str) (c : Ctx) (ch : Choices) (g : Option T) : List (Tree β) → Nat → Option (List Json × Nat)
+def renderNodes (name : β → Str) (c : Ctx) (ch : Choices) (loc : Option Json) (g : Option T) : List (Tree β) → Nat → Option (List Json × Nat)
   | [], n => some ([], n)
   | t :: ts, n =>
-    match renderNode name c ch g t n with
+    match renderNode name c ch loc g t n with
     | none => none
     | some (ms, n1) =>
-      match renderNodes name c ch g ts n1 with
+      match renderNodes name c ch loc g ts n1 with
       | none => none
       | some (js, n2) => some (.obj ms :: js, n2)
 
 /-- the entries of the top-level array / `@graph`: node objects of default-graph blocks, one graph object
     per named block -/
-def renderForest (name : β → Str) (c : Ctx) (ch : Choices) : Forest β → Nat → Option (List Json × Nat)
+def renderForest (name : β → Str) (c : Ctx) (ch : Choices) (loc : Option Json) : Forest β → Nat → Option (List Json × Nat)
   | [], n => some ([], n)
   | (none, ns) :: rest, n =>
-    match renderNodes name c ch none ns n with
+    match renderNodes name c ch (if ch.shape = 2 then none else loc) none ns n with
     | none => none
     | some (js, n1) =>
-      match renderForest name c ch rest n1 with
+      match renderForest name c ch loc rest n1 with
       | none => none
       | some (js', n2) => some (js ++ js', n2)
   | (some gn, ns) :: rest, n =>
@@ -537,10 +555,10 @@ def renderForest (name : β → Str) (c : Ctx) (ch : Choices) : Forest β → Na
     match idS with
     | none => none
     | some s =>
-      match renderNodes name c ch (some gt) ns n with
+      match renderNodes name c ch loc (some gt) ns n with
       | none => none
       | some (js, n1) =>
-        match renderForest name c ch rest n1 with
+        match renderForest name c ch loc rest n1 with
         | none => none
         | some (js', n2) => some (.obj [(kId, .str s), (kGraph, .arr js)] :: js', n2)
 
@@ -653,11 +671,11 @@ def startCounter (ch : Choices) (ctx : Option Json) (F : Forest β) (entries : L
   | _ => 0
 
 /-- render `F` under the context `cj` (already known to process to `c`), validate the result as a whole -/
-def renderDoc (name : β → Str) (ch : Choices) (cj : Option Json) (c : Ctx) (F : Forest β) : Option Json :=
+def renderDoc (name : β → Str) (ch : Choices) (cj : Option Json) (c : Ctx) (loc : Option Json) (F : Forest β) : Option Json :=
   -- the entries do not depend on the counter they start from except through the numbering of fresh
   -- nodes, so both possible starts are tried
   [0, 1].findSome? fun n0 =>
-    match renderForest name c ch F n0 with
+    match renderForest name c ch loc F n0 with
     | none => none
     | some (entries, _) =>
       let doc := wrap ch cj F entries
@@ -697,20 +715,28 @@ def writeFlat (name : β → Str) (d : List (DQuad β)) : Json := .arr (d.map (f
 def chooseForest (d : List (DQuad β)) (ch : Choices) : Forest β :=
   if forestOK (propose d ch) d then propose d ch else trivialForest d
 
-/-- step 2: with the inline context of the choices if it processes and the rendering validates, else
-    without context -/
-def renderWith (name : β → Str) (ch : Choices) (F : Forest β) : Option Json :=
-  let c0 := Ctx.initial ch.mode11 ch.base
-  let withCtx : Option Json :=
-    match ch.context with
+/-- rendering under the inline context `cj` of the choices, if it processes -/
+def renderCtx (name : β → Str) (ch : Choices) (loc : Option Json) (F : Forest β) : Option Json :=
+  match ch.context with
+  | none => none
+  | some cj =>
+    match processLocal (Ctx.initial ch.mode11 ch.base) cj with
     | none => none
-    | some cj =>
-      match processLocal c0 cj with
-      | none => none
-      | some c => renderDoc name ch (some cj) c F
-  match withCtx with
+    | some c => renderDoc name ch (some cj) c loc F
+
+/-- step 2: with the inline context and the local contexts of the choices if they process and the
+    rendering validates; else without local contexts; else without inline context (with, then without
+    local contexts) -/
+def renderWith (name : β → Str) (ch : Choices) (F : Forest β) : Option Json :=
+  match renderCtx name ch ch.localContext F with
   | some doc => some doc
-  | none => renderDoc name ch none c0 F
+  | none =>
+    match renderCtx name ch none F with
+    | some doc => some doc
+    | none =>
+      match renderDoc name ch none (Ctx.initial ch.mode11 ch.base) ch.localContext F with
+      | some doc => some doc
+      | none => renderDoc name ch none (Ctx.initial ch.mode11 ch.base) none F
 
 /-- steps 1 and 2; `none` = gave up -/
 def tryWrite (name : β → Str) (d : List (DQuad β)) (ch : Choices) : Option (Json × Forest β) :=
